@@ -22,6 +22,8 @@ EXEMPT = {
 
 def run(ctx, rep):
     ix, T = ctx.ix, ctx.typer
+    from .common import check_falsy_zero
+    check_falsy_zero(ctx, rep, "C20.5", ['jaqalpaq.core.circuitbuilder', 'jaqalpaq.core.block', 'jaqalpaq.core.gate', 'jaqalpaq.core.circuit', 'jaqalpaq.core.register', 'jaqalpaq.core.constant', 'jaqalpaq.core.macro'], floor_positions=10)
     ir = [k for k in T.ir_classes]
     eq_classes = [k for k in ir if "__eq__" in ix.classes[k].methods]
     rep.analysed["classes_with_eq"] = [ix.classes[k].name for k in eq_classes]
